@@ -138,6 +138,7 @@ class Machine:
                                         bufsize=case.get('bufsize', 8192)))
         self.kind = case['kind']
         self.small_cache = case.get('cache_size', 400) < 50
+        self.nsp_total = 0      # savepoints taken so far (explicit ones)
         self.stop = False
         self.db = dbh.make_db(self.sim, self.kind,
                               cache_size=case.get('cache_size', 400))
@@ -360,12 +361,11 @@ class Machine:
                     except Exception as e:      # noqa: B902
                         # known finding: with a small object cache the
                         # clean-up at a savepoint evicts a new object it
-                        # has just saved; a commit that fails after the
-                        # savepoint data were handed to the storage can no
-                        # longer reload it
-                        fam = '/evicted-by-savepoint-before-failed-commit' \
-                            if self.small_cache and \
-                            where.startswith('after failed commit') else ''
+                        # has just saved; when it is un-added (abort,
+                        # rollback, failed commit) it is a ghost that
+                        # nothing can load any more
+                        fam = '/evicted-by-savepoint' \
+                            if self.small_cache and self.nsp_total else ''
                         self.flag('new-object-lost-state' + fam, '%s: '
                                   'object %d was disowned but lost its '
                                   'state (%s)'
@@ -609,6 +609,7 @@ class Machine:
         for so in self.sos:
             so.dirty = False
         self.nsp += 1
+        self.nsp_total += 1
         if saved_now:
             self.joined = True
         self.sps.append([sp, self.snapshot(), True])
